@@ -35,6 +35,8 @@ OUTSIDE = ("symbolic node positions for the least-squares operator and for more 
            "no encoding; meshes larger than the enumerated ones")
 RULE = ("one evaluation = one explored path (order type of the field values relative to each other and to the threshold); "
         "distinct = distinct (mesh, fraction, label vector); non-trivial = at least two entries above the threshold")
+RTOL = 1e-9          # witness comparison of gradients: LAPACK / float arithmetic against the exact value
+ATOL = 1e-9
 LABELS = ["hotspot.threshold", "hotspot.components", "hotspot.numbering", "gradient.index", "gradient.linear_exact"]
 
 MESHES = {
@@ -321,10 +323,11 @@ def _run_gradient3d(ctx, case):
             coords[nid] = tuple((SymReal(z3.RealVal(str(Fraction(float(v))))) if ctx.sym else float(v)) for v in case["coords"][k])
     g = [ctx.real(n) for n in ("gx", "gy", "gz")]
     f0 = ctx.real("f0")
-    ctx.hint(sym_and(*[sym_and(v <= 4, v >= -4) for v in g + [f0]]))
-    sym_coords = [c for nid in nodes for c in coords[nid]] if case.get("coords") == "symbolic" else []
-    if sym_coords:
-        ctx.hint(sym_and(*[sym_and(v <= 4, v >= -4) for v in sym_coords]))
+    ctx.hint(sym_and(g[0] == 3, g[1] == -2, g[2] == 4, f0 == 1))        # a non-trivial field for the witness replay
+    if case.get("coords") == "symbolic":
+        # preferred witness: a well-conditioned element (the float replay of an almost degenerate one says nothing)
+        nice = HEX_XYZ if hexa else TET2_XYZ
+        ctx.hint(sym_and(*[coords[nid][r] == float(nice[k][r]) for k, nid in enumerate(nodes) for r in range(3)]))
     # non-degenerate elements: the Jacobian of the reference map is regular at every corner
     for _e, ns in layout:
         P = [coords[n] for n in ns]
@@ -409,7 +412,7 @@ def _run_gradient_lsq(ctx, case):
     coords = {nid: tuple(float(v) for v in xyz[k]) for k, nid in enumerate(nodes)}
     g = [ctx.real(n) for n in ("gx", "gy", "gz")]
     f0 = ctx.real("f0")
-    ctx.hint(sym_and(*[sym_and(v <= 4, v >= -4) for v in g + [f0]]))
+    ctx.hint(sym_and(g[0] == 3, g[1] == -2, g[2] == 4, f0 == 1))        # a non-trivial field for the witness replay
     field = {nid: g[0] * coords[nid][0] + g[1] * coords[nid][1] + g[2] * coords[nid][2] + f0 for nid in nodes}
     rows = [(nid, e) for e, ns in layout for nid in ns]
     dt = object if ctx.sym else np.float64
